@@ -250,6 +250,28 @@ def clause5_teardown(ctx, P):
     ctx.floor("C01.5 R-ORDER", 3)
 
 
+def clause7_attach_all(ctx, P, cg):
+    """a fetch is answered with success only if attaching it succeeded at EVERY peer: inside the walk over the peers the result
+    of the per-peer step is tested and a failure leaves the walk (a result that is only looked at after the loop is the last
+    peer's)"""
+    f = P.fn("fetch.c:add_fetch_to_states")
+    cs = f.calls("add_fetch_to_states_in_peer")
+    loops = f.loops()
+    ok = False
+    if len(cs) == 1 and loops:
+        c = cs[0]
+        for h, body in loops.items():
+            if c.block not in body:
+                continue
+            for b in sorted(body):
+                for (sv, atom, pol) in P.edge_conds(f, b):
+                    if sv not in body and atom is not None and Q.mentions(atom, lambda x: x[0] == "call" and x[3] == c.id):
+                        ok = True
+    ctx.ob("C01.1 R-LOOP", f, "attach-failure-leaves-the-walk", ok,
+           "the result of add_fetch_to_states_in_peer() is not tested inside the walk over the peers: only the last peer's result "
+           "decides the answer, so a fetch is confirmed although the states of an earlier peer were never announced")
+
+
 def clause6_event_payload(ctx, P, cg):
     """what a subscriber is told is a private copy of the element's value, rendered without a size limit of its own"""
     nf = P.fn("fetch.c:notify_fetching_peer")
@@ -285,3 +307,4 @@ def run(ctx):
         clause4_order(ctx, P)
         clause5_teardown(ctx, P)
         clause6_event_payload(ctx, P, cg)
+        clause7_attach_all(ctx, P, cg)
